@@ -150,6 +150,32 @@ def check_validator(fx, rep, b):
                     if a.get("s") == "Let" and a["pat"].get("p") == "Bind":
                         inst_local = a["pat"]["local"]
                         break
+    # match form: `match thread.instruction(t) { Some(i) if i.is::<JumpDest>() => Ok(t), Some(_) => Err(..), None => Err(..) }`
+    ok_c_match = False
+    for n, ps in inst_calls:
+        if F.local_of(n["args"][0]) is None or F.local_of(n["args"][0]) != tgt_local:
+            continue
+        m = next((a for a, key in reversed(ps) if a.get("k") == "Match" and key == "scrut" and "Desugar" not in str(a.get("source", ""))), None)
+        if m is None:
+            continue
+        mine = [a for a in m["arms"] if any(x is okn for x, _ in F.walk(a["body"]))]
+        others = [a for a in m["arms"] if a not in mine]
+        if len(mine) != 1:
+            continue
+        arm = mine[0]
+        some = any(v == "Some" for _, v in (F.pat_variants(arm["pat"]) or set()))
+        binds = set(F.pat_bindings(arm["pat"]))
+        g = arm.get("guard")
+        guard_ok = False
+        if g is not None:
+            gc = F.strip(g)
+            if gc.get("k") == "MethodCall" and (F.callee(gc) or "").endswith(f"::is::<{JUMPDEST_TY}>"):
+                guard_ok = bool(binds & {x["local"] for x, _ in F.walk(gc["recv"]) if x.get("k") == "Path" and x.get("res") == "local"})
+        errs = all(any(x.get("k") == "Call" and (F.path_def(x["f"]) or "").endswith("::Err") and not x.get("exp") for x, _ in F.walk(o["body"])) and not any(x.get("k") == "Call" and (F.path_def(x["f"]) or "").endswith("::Ok") and not x.get("exp") for x, _ in F.walk(o["body"])) for o in others)
+        if some and others and errs:
+            ok_b = True
+            if guard_ok:
+                ok_c_match = True
     rep.oblige(ok_b, "R08.1", "instruction-exists", w, "the validator does not require an instruction to exist at the very target it returns (out-of-range targets would be taken)")
     ok_c = False
     for n, ps in F.walk(root):
@@ -175,6 +201,7 @@ def check_validator(fx, rep, b):
                 form2 = branch is not None and ok_in(jd_branch) and not has_ok_ctor(branch) and (returns or has_err_ctor(branch))
                 if on_inst and (form1 or form2):
                     ok_c = True
+    ok_c = ok_c or ok_c_match
     rep.oblige(ok_c, "R08.1", "is-jumpdest", w, "the validator does not reject a target whose instruction is not the JUMPDEST opcode (on the instruction fetched for that target, before returning Ok)")
 
 
@@ -187,7 +214,8 @@ def check_move_bounds(fx, rep):
     for b in fx.fn_bodies():
         if b.get("impl_self") != ET or not b.get("hir"):
             continue
-        root = b["hir"]["value"]
+        # read with the thread's own methods in place: `jump` that is `self.at(target)` is the same primitive
+        root = F.inline_module_helpers(fx, b, max_nodes=300, methods=True)["hir"]["value"]
         params = {p_["local"]: p_["name"] for p_ in b["hir"]["params"] if p_.get("p") == "Bind" and p_.get("name") != "self"}
         mutated = T.mutated_locals(root)
         for a, aps in F.walk(root):
@@ -213,6 +241,26 @@ def check_move_bounds(fx, rep):
                 seen.append(f"{T.short(lhs)[:30]} {'<' if strict else '<='} {T.short(rhs)[:40]}")
                 if plain_len and strict:
                     ok = True
+            if not ok:
+                # `let op = self.instructions.get(offset as usize)?;` in front of the write: a hit IS `offset < len`
+                chain = [x for x, _ in aps] + [a]
+                for i_, (anc, key) in enumerate(aps):
+                    if "stmts" not in anc or "k" in anc:
+                        continue
+                    for s_ in anc["stmts"]:
+                        if s_ is chain[i_ + 1] or any(x is a for x, _ in F.walk(s_)):
+                            break
+                        if s_.get("s") != "Let" or "init" not in s_:
+                            continue
+                        for m, mps in F.walk(s_["init"]):
+                            if m.get("k") == "MethodCall" and m["method"] == "get" and m["args"] and "Opcode" in (m.get("recv_ty") or "") and ("Vec<" in (m.get("recv_ty") or "") or "[" in (m.get("recv_ty") or "")):
+                                at = T.term(m["args"][0], env, mutated)
+                                while isinstance(at, tuple) and at[0] in ("cast", "ref", "deref") and len(at) > 1:
+                                    at = at[1]
+                                hit_only = any(x.get("k") == "Match" and "TryDesugar" in str(x.get("source", "")) for x, _ in mps) or ("els" in s_ and T.diverges(s_["els"]))
+                                if at[0] == "local" and at[1] == rl and hit_only:
+                                    ok = True
+                                    seen.append("instructions.get(offset) hit")
             rep.oblige(ok, "R08.2", f"move-bound:{b['name']}", F.loc(a["span"]), f"`{b['def']}` places the thread on `{params[rl]}` under {seen or 'no bound'} instead of `{params[rl]} < len`: the last instruction cannot be reached, or an offset past the end can", sample={"rule": "R08.2", "fn": b["name"], "bound": seen})
     rep.floor("R08.2", n, 2, "primitives that place a thread on a given offset")
 
